@@ -19,6 +19,7 @@ func init() {
 		},
 		Phases: func(tier string) []engine.Phase {
 			return []engine.Phase{
+				respellZoomPhase("C04", tier),
 				{Name: "textual-prefix-lists", ShardDepth: 2, Bounds: engine.Bounds{InputDev: -1},
 					Rule: "lists of 2-3 voxels whose ID strings are prefixes / decimal extensions of one another in 4 orders x h in {7,13,20,35} x v in {2,3,20} x merge targets within -1..0 of the list zooms: result = model, region preserved, idempotent; non-trivial = distinct (list, target)",
 					Body: func(c *engine.Ctx) {
